@@ -253,6 +253,7 @@ void Reference::get_polygons(bool apply_repetitions, bool include_paths, int64_t
                 dst->copy_from(*src);
             }
             dst->transform(magnification, x_reflection, rotation, origin + *offset_p++);
+            dst->repetition.transform(magnification, x_reflection, rotation);
             result.append_unsafe(dst);
         }
     }
@@ -290,6 +291,7 @@ void Reference::get_flexpaths(bool apply_repetitions, int64_t depth, bool filter
                 dst->copy_from(*src);
             }
             dst->transform(magnification, x_reflection, rotation, origin + *offset_p++);
+            dst->repetition.transform(magnification, x_reflection, rotation);
             result.append_unsafe(dst);
         }
     }
@@ -327,6 +329,7 @@ void Reference::get_robustpaths(bool apply_repetitions, int64_t depth, bool filt
                 dst->copy_from(*src);
             }
             dst->transform(magnification, x_reflection, rotation, origin + *offset_p++);
+            dst->repetition.transform(magnification, x_reflection, rotation);
             result.append_unsafe(dst);
         }
     }
@@ -364,6 +367,7 @@ void Reference::get_labels(bool apply_repetitions, int64_t depth, bool filter, T
                 dst->copy_from(*src);
             }
             dst->transform(magnification, x_reflection, rotation, origin + *offset_p++);
+            dst->repetition.transform(magnification, x_reflection, rotation);
             result.append_unsafe(dst);
         }
     }
